@@ -2,8 +2,8 @@ SPECIFICATION Spec
 CONSTANTS
   Names = {"n1", "n2", "n3"}
   Vals = {1}
-  MaxObj = 32
-  MaxDepth = 20
+  MaxObj = 34
+  MaxDepth = 22
   MaxClock = 1
   Limit <- Limit_CopyDup
   Ops = {"create", "link", "copy", "attr", "data"}
